@@ -316,9 +316,12 @@ impl PupRelation {
                                         Expr::col(sum_square_col),
                                         Expr::greatest(Expr::val(1.), Expr::col(count_col.clone())),
                                     ),
-                                    Expr::divide(
-                                        Expr::col(sum_col),
-                                        Expr::greatest(Expr::val(1.), Expr::col(count_col)),
+                                    Expr::pow(
+                                        Expr::divide(
+                                            Expr::col(sum_col),
+                                            Expr::greatest(Expr::val(1.), Expr::col(count_col)),
+                                        ),
+                                        Expr::val(2),
                                     ),
                                 ),
                             )),
@@ -351,9 +354,12 @@ impl PupRelation {
                                         Expr::col(sum_square_col),
                                         Expr::greatest(Expr::val(1.), Expr::col(count_col.clone())),
                                     ),
-                                    Expr::divide(
-                                        Expr::col(sum_col),
-                                        Expr::greatest(Expr::val(1.), Expr::col(count_col)),
+                                    Expr::pow(
+                                        Expr::divide(
+                                            Expr::col(sum_col),
+                                            Expr::greatest(Expr::val(1.), Expr::col(count_col)),
+                                        ),
+                                        Expr::val(2),
                                     ),
                                 ),
                             ),
